@@ -27,6 +27,10 @@ run_directed = directed.run
 
 
 def cases(tier, rng):
+    for c in directed.capture_reenters_function_cases():
+        yield "directed-capture-reenters-function", c
+    for c in directed.old_attribute_errors_cases():
+        yield "directed-old-attribute-errors", c
     for c in directed.wrapper_above_inheriting_override_cases():
         yield "directed-wrapper-above-inheriting-override", c
     for c in directed.odd_capture_callables_cases():
